@@ -1,0 +1,31 @@
+//go:build verif
+
+// Round-trip lemmas (C14) for the wire address types, written as functions; see channel/zz_verif_roundtrip.go. Never called;
+// compiled only with the build tag "verif".
+
+package wire
+
+import "io"
+
+// verifLink marks the point where the lemma's hypothesis starts to hold; it does nothing.
+func verifLink(w io.Writer, r io.Reader) {}
+
+func verifRoundTripAddressDecMap(w0 io.Writer, r0 io.Reader, x AddressDecMap) (y AddressDecMap, encErr, decErr error) {
+	encErr = x.Encode(w0)
+	if encErr != nil {
+		return nil, encErr, nil
+	}
+	verifLink(w0, r0)
+	decErr = y.Decode(r0)
+	return y, nil, decErr
+}
+
+func verifRoundTripAddressMapArray(w0 io.Writer, r0 io.Reader, x AddressMapArray) (y AddressMapArray, encErr, decErr error) {
+	encErr = x.Encode(w0)
+	if encErr != nil {
+		return nil, encErr, nil
+	}
+	verifLink(w0, r0)
+	decErr = y.Decode(r0)
+	return y, nil, decErr
+}
